@@ -10,6 +10,8 @@ SuppBasic == << S("cat", "runtime", "-", "-"), S("catlabel", "runtime", "a", "-"
                 S("catf", "runtime", "-", "k2"), S("catf", "runtime", "-", "f1"),
                 \* a label written with a capital letter: label-only suppressions compare it exactly, category-scoped ones lower-cased
                 S("label", "-", "B", "-"), S("catlabel", "runtime", "B", "-"), S("labelf", "-", "B", "f1"), S("catlabel", "runtime", "b", "-") >>
+\* suppressions that name a category by its alias or by its canonical name
+SuppAlias == << S("cat", "parser", "-", "-"), S("cat", "syntax", "-", "-"), S("catlabel", "parser", "a", "-"), S("catf", "parser", "-", "f1") >>
 SuppScore == << S("cat", "runtime", "-", "-"), S("label", "-", "a", "-") >>
 AllCats == {"syntax", "mistakes", "instructor", "algorithmic", "runtime", "student", "specification",
             "positive", "instructions", "uncategorized", "style", "system", "complete"}
